@@ -6,7 +6,8 @@ from . import compositelib as L
 OCAML = ["composite"]
 GO = ["composite"]
 PROP = "props/C10.v"
-PROOFS = ["proofs/CompositeC10b.v", "proofs/CompositeMonLink.v", "proofs/CompositeProto.v", "proofs/CompositeProgress.v", "proofs/CompositeC09.v"] + L.PROOFS_COMMON
+PROOFS = ["proofs/CompositeC10b.v", "proofs/CompositeC10c.v", "proofs/CompositeMonLink.v", "proofs/CompositeProto.v", "proofs/CompositeProgress.v",
+          "proofs/CompositeC09.v", "proofs/CompositeMeasure.v", "proofs/CompositeTrace.v", "proofs/CompositeLink2.v"] + L.PROOFS_COMMON
 
 
 def run(run):
